@@ -141,11 +141,12 @@ func TestC18(t *testing.T) {
 					bi := (r + i) % 3
 					got, err := in.QueryAll(buckets[bi])
 					if err != nil {
-						if buckets[bi].Variable && hx.KFOpen("KF-03a") {
+						rec.Class("query error: "+err.Error(), 1)
+						if buckets[bi].Variable && hx.KFOpen("KF-18a") && kf18aError(err.Error()) {
 							// KF-03a's window seen from a reader: the interval's data was rewritten in place,
-							// its index record not yet
-							rec.Exclude("KF-03a")
-							rec.KF("KF-03a", "reader hits the window between in-place data rewrite and index update of a variable-length interval: "+err.Error())
+							// its index record not yet, so the old length is applied to the new bytes
+							rec.Exclude("KF-18a")
+							rec.KF("KF-18a", err.Error())
 							continue
 						}
 						fail("reader %d: query of %s fails: %v", r, buckets[bi].Key(), err)
@@ -214,4 +215,10 @@ func TestC18(t *testing.T) {
 		rec.Case(nt, fmt.Sprintf("writers=%d", nw), fmt.Sprintf("readers=%d", nr))
 	})
 	rec.Flush()
+}
+
+// kf18aError: the manifestations KF-18a excuses - the reader decodes an interval whose bytes and
+// index record are out of step (decode failure or a short read at the end of the file).
+func kf18aError(msg string) bool {
+	return strings.Contains(msg, "snappy") || strings.Contains(msg, "EOF") || strings.Contains(msg, "corrupt")
 }
